@@ -302,7 +302,7 @@ type c15WorldCase struct {
 
 var c15Degeneracies = []string{
 	"empty-rule-step", "empty-rule-inspection", "one-token-rule", "threshold-zero", "threshold-negative", "threshold-huge", "step-without-links", "pubkey-undefined",
-	"key-type-vs-material", "ed25519-short", "ed25519-nonhex", "key-garbage-pem", "rootca-garbage", "intermediate-garbage", "empty-run", "name-glob", "name-separator", "name-dotdot",
+	"key-type-vs-material", "ed25519-short", "ed25519-nonhex", "key-garbage-pem", "rootca-garbage", "intermediate-garbage", "ca-entry-holds-key", "ca-entry-holds-key", "link-self-referential-sublayout", "empty-run", "name-glob", "name-separator", "name-dotdot",
 	"duplicate-step", "steps-null", "inspect-null", "keys-null", "expected-null", "huge-readme", "verifier-key-short", "verifier-key-mismatch", "step-and-inspection-same-name",
 	"link-garbage", "link-empty-object", "link-null-members", "link-bad-cert", "link-pubkey-as-cert", "link-unauthorised-sublayout", "link-authorised-sublayout-no-dir",
 	"truncated-match-rule:5", "truncated-match-rule:7", "truncated-match-rule:9", "truncated-match-rule:10", "truncated-match-rule:11", "truncated-match-rule:3", "linkdir-is-workdir-fifo", "linkdir-is-workdir-symlink-to-fifo", "link-dir", "link-dangling-symlink", "link-fifo", "link-symlink-to-fifo", "link-symlink-to-dir", "link-wrong-shape", "link-materials-null", "link-name-mismatch", "link-sig-garbage", "link-many-sigs", "constraint-odd", "cert-link-odd-constraints", "cert-link-odd-constraints",
@@ -483,6 +483,32 @@ func c15Apply(w hx.World, kinds []string) hx.World {
 		case "link-unauthorised-sublayout":
 			sub := hx.MLayout{Type: "layout", Expires: hx.FarFuture, Keys: hx.MKeys{}, Steps: []hx.MStep{}, Inspect: []hx.MInspection{}}
 			links = append(links, hx.WMetaFile{Name: hostileName(hx.PoolKey("ed25519-3").KeyID), Wrapper: "legacy", Meta: hx.MMeta{Layout: &sub}, Sigs: []hx.WSig{{Key: "ed25519-3"}}})
+		case "link-self-referential-sublayout":
+			// an authorised functionary hands in, as evidence for the step, a layout that asks for that very step
+			// again from the same functionary - and no sublayout directory exists
+			for i, f := range links {
+				if f.Meta.Link != nil && f.Meta.Link.Name == s0.Name && len(f.Sigs) > 0 && !strings.HasPrefix(f.Sigs[0].Key, "pki:") {
+					k := hx.PoolKey(f.Sigs[0].Key)
+					sub := hx.MLayout{Type: "layout", Expires: hx.FarFuture, Keys: hx.MKeys{k.KeyID: hx.MKeyFromLib(k.Pub())}, Inspect: []hx.MInspection{},
+						Steps: []hx.MStep{{Type: "step", Name: s0.Name, Threshold: 1, PubKeys: []string{k.KeyID}, ExpMat: [][]string{{"ALLOW", "*"}}, ExpProd: [][]string{{"ALLOW", "*"}}, ExpCommand: []string{}}}}
+					links[i].Meta = hx.MMeta{Layout: &sub}
+					break
+				}
+			}
+		case "ca-entry-holds-key":
+			// a CA entry whose "certificate" is a well-formed PEM - of a key, not of a certificate
+			pk := hx.PoolKey("ecdsa-p256-0")
+			pem := string(pk.PKIXPEM())
+			if len(links)%2 == 1 {
+				pem = string(pk.PKCS8PEM())
+			}
+			ck := hx.MKeyFromLib(pk.Pub())
+			ck.Certificate = pem
+			if len(kinds)%2 == 0 {
+				lay.RootCas = hx.MKeys{ck.KeyID: ck}
+			} else {
+				lay.IntermediateCas = hx.MKeys{ck.KeyID: ck}
+			}
 		case "link-authorised-sublayout-no-dir":
 			for i, f := range links {
 				if f.Meta.Link != nil && f.Meta.Link.Name == s0.Name {
